@@ -145,7 +145,7 @@ None == D(FALSE, <<>>)
 Cases ==
          {[op |-> op, a |-> a, b |-> b, arg |-> 0] : op \in Binary \cap Ops, a \in FeOperands, b \in FeOperands \cup PlainOperands}
     \cup {[op |-> op, a |-> a, b |-> b, arg |-> 0] : op \in {"ew", "matmul"} \cap Ops, a \in PlainOperands, b \in FeOperands}     \* constant on the left (a plain array acts as a constant tensor)
-    \cup {[op |-> "tensorprod", a |-> a, b |-> b, arg |-> sy] : a \in IF "tensorprod" \in Ops THEN FeOperands ELSE {}, b \in FeOperands, sy \in {0, 1}}
+    \cup {[op |-> "tensorprod", a |-> a, b |-> b, arg |-> sy] : a \in IF "tensorprod" \in Ops THEN {o \in FeOperands : Rank(o) <= 3} ELSE {}, b \in {o \in FeOperands : Rank(o) <= 3}, sy \in {0, 1}}     \* the product is defined for ranks 1 and 2: ranks 0 and 3 stand for the rejected operands
     \cup {[op |-> op, a |-> a, b |-> None, arg |-> 0] : op \in (Unary \ {"reduce"}) \cap Ops, a \in FeOperands}
     \cup {[op |-> "reduce", a |-> a, b |-> None, arg |-> ax] : a \in IF "reduce" \in Ops THEN FeOperands ELSE {}, ax \in (-(MaxRank + 2)..(MaxRank + 1)) \cup {99}}
     \cup UNION {{[op |-> "broadcast", a |-> D(TRUE, <<ne, np>>), b |-> v, arg |-> tn] :
